@@ -484,6 +484,14 @@ def cache_discipline(model, rep, classes, exempt=None, skip_guard_rule=False):
         for ma in cache.find_memo_attrs(model, ci):
             for f in cache.check_invalidation(model, ci, ma):
                 rep.ob(f.rule, model.mod(entry[0]), f.node, f.text, f.ok, f.msg, engine='cache')
+        only = set(_scope_methods(model, ci, entry[2])) if len(entry) > 2 else None
+        seen_c = set()
+        for cm in cache.find_cache_methods(ci):
+            if (only is not None and cm.name not in only) or cm.attr in seen_c:
+                continue
+            seen_c.add(cm.attr)
+            for f in cache.check_invalidation(model, ci, cache.cache_as_memo(model, cm)):
+                rep.ob(f.rule, model.mod(entry[0]), f.node, f.text, f.ok, f.msg, engine='cache')
     # module-level caches of the modules these classes live in
     for mname in sorted({e[0] for e in classes}):
         mod = model.mod(mname)
